@@ -94,6 +94,14 @@ def random_povm(dim: int, num_inputs: int, num_outputs: int, seed: int | None = 
             partial = np.array(output_block, dtype=complex).dot(u_mat).dot(np.diag(d_mat ** (-1 / 2.0)))
             internal = partial.dot(np.diag(np.ones(dim)) ** (1 / 2.0))
             output_povms.append(internal.T.conj() @ internal)
+
+        # In floating point the operators above sum to the identity only up to machine precision times the condition
+        # number of `normalizer`, which is unbounded for random blocks. Their sum is close to the identity and hence
+        # well conditioned, so one symmetric rescaling by its inverse square root restores the completeness relation.
+        povm_sum = sum(output_povms)
+        sum_vals, sum_vecs = np.linalg.eigh((povm_sum + povm_sum.T.conj()) / 2)
+        rescale = (sum_vecs * sum_vals ** (-1 / 2.0)) @ sum_vecs.T.conj()
+        output_povms = [rescale @ povm @ rescale for povm in output_povms]
         povms.append(output_povms)
 
     # This allows us to index the POVMs as [dim, dim, num_inputs, num_outputs].
